@@ -70,21 +70,37 @@ impl RealAzks {
     }
 }
 
+/// the implementation's own version selection (hook H2)
 pub fn node_as_of(rec: &TreeNodeWithPreviousValue, epoch: u64) -> Option<TreeNode> {
-    if rec.latest_node.last_epoch > epoch {
-        rec.previous_node.clone()
-    } else {
-        Some(rec.latest_node.clone())
+    rec.verif_determine_node_to_get(epoch).ok()
+}
+/// Ok(None) = not found (a reader treats the child as absent), Err = any other storage error
+pub fn node_as_of_res(rec: &TreeNodeWithPreviousValue, epoch: u64) -> Result<Option<TreeNode>, ()> {
+    match rec.verif_determine_node_to_get(epoch) {
+        Ok(n) => Ok(Some(n)),
+        Err(akd::errors::StorageError::NotFound(_)) => Ok(None),
+        Err(_) => Err(()),
     }
+}
+
+/// one node record with both versions, for the store-level correspondence
+pub fn ser_rec(r: &TreeNodeWithPreviousValue) -> String {
+    let n = |x: &TreeNode| format!("{} {} {} {} {} {}", x.last_epoch, x.min_descendant_epoch, if x.node_type == TreeNodeType::Leaf { "L" } else { "N" },
+        x.left_child.map(|l| fmt_nl(&l).replace(' ', "/")).unwrap_or("-".into()), x.right_child.map(|l| fmt_nl(&l).replace(' ', "/")).unwrap_or("-".into()), hx(&x.hash.0));
+    format!("{} {} {}", fmt_nl(&r.label), n(&r.latest_node), match &r.previous_node { Some(p) => format!("P {}", n(p)), None => "-".into() })
 }
 
 /// preorder serialisation of the tree stored in `m` as of `epoch`:
 /// L <label> <hash> <last_epoch> | (R|I) <label> <last_epoch> <min_desc> <hash> <left|-> <right|->
 pub fn ser_tree(m: &HashMap<NodeLabel, TreeNodeWithPreviousValue>, label: &NodeLabel, epoch: u64, out: &mut String) {
-    let n = match m.get(label).and_then(|r| node_as_of(r, epoch)) {
-        Some(n) => n,
-        None => {
-            out.push_str("MISSING ");
+    let n = match m.get(label).map(|r| node_as_of_res(r, epoch)).unwrap_or(Ok(None)) {
+        Ok(Some(n)) => n,
+        Ok(None) => {
+            out.push_str("- ");
+            return;
+        }
+        Err(()) => {
+            out.push_str("ERR ");
             return;
         }
     };
